@@ -24,9 +24,9 @@ INFO = {
         'quick': {'counters': {'roundtrips': 300, 'byte_identity_checks': 300, 'fortran_style_files': 60, 'shipped_files': 3,
                                'records_resliced_in_situ': 1000},
                   'seen': {'flavour': 2, 'timing_x_reset': 4}, 'nontrivial': 200},
-        'thorough': {'counters': {'roundtrips': 6000, 'byte_identity_checks': 6000, 'fortran_style_files': 1500, 'shipped_files': 7,
-                                  'records_resliced_in_situ': 30000},
-                     'seen': {'flavour': 2, 'timing_x_reset': 4}, 'nontrivial': 4000},
+        'thorough': {'counters': {'roundtrips': 25000, 'byte_identity_checks': 25000, 'fortran_style_files': 6000, 'shipped_files': 7,
+                                  'records_resliced_in_situ': 120000},
+                     'seen': {'flavour': 2, 'timing_x_reset': 4}, 'nontrivial': 16000},
     },
     'watchdog_s': {'quick': 900, 'thorough': 3600},
     'assumptions': ['values are generated to fit their fields (what happens to values that do not fit is property C02)',
@@ -37,7 +37,7 @@ INFO = {
 def plan(tier, seed):
     if tier == 'quick':
         return [{'kind': 'gen', 'n': 400} for _ in range(4)] + [{'kind': 'fortran', 'n': 300} for _ in range(2)] + [{'kind': 'shipped', 'which': 'small'}]
-    return [{'kind': 'gen', 'n': 500} for _ in range(14)] + [{'kind': 'fortran', 'n': 800} for _ in range(2)] + \
+    return [{'kind': 'gen', 'n': 2500} for _ in range(14)] + [{'kind': 'fortran', 'n': 4000} for _ in range(2)] + \
         [{'kind': 'shipped', 'which': 'all'}]
 
 
